@@ -8,6 +8,7 @@ claimed={
  "C03":("bounded model checking of the real LockedOrca over the real L1L2 / L1L2Batch orcas: two connections (main port and batch port on one lock set) x one symbolic command each, every interleaving at lock operations and backend calls; linearizability against the reference map and L1-consistent-with-L2 at the end; both ports share locker objects and the stripe is a function of the key","§C03","exhaustive schedule exploration (bounded) with symbolic data, SMT-decided linearizability oracle"),
  "C04":("real chunked.Handler over an in-process memcached model: one symbolic command from an arbitrary well-formed backend state, result / returned bytes / complete backend post-state / set of backend keys touched compared with the reference map; derived-key injectivity for symbolic client keys","§C04","symbolic execution of the real handler + SMT, inductive step from arbitrary well-formed backend state"),
  "C05":("real chunked get / get-and-touch / append over the memcached model with every subset of a value's backend entries lost: result is the full value or a miss","§C05","symbolic execution + SMT, lost-entry subsets as environment choices"),
+ "C06":("the real batching pool (conn, relay, Handler with batcher/reader/recovery goroutines) over an in-memory connection to the memcached model, differentially against the real std handler on an equal backend state: every command, gets of 1-2 keys, two callers sharing a batch","§C06","symbolic execution of the pool's goroutines + SMT, differential against the direct handler"),
  "C07":("binary and text parsers decode pipelines of symbolic requests produced by independent encoders, at every read boundary; first-byte disambiguation over all 256 bytes","§C07","symbolic execution of the real parsers + SMT, differential against independent encoders"),
  "C08":("pipelines of requests as bytes through the real parsers, DefaultServer.Loop, the real orcas (9 configurations incl. locking wrappers) and the real responders; replies decoded by independent strict decoders: one complete frame per non-quiet request, opaque echo / request order, one value per hit, one terminator per get, connection in sync after error replies","§C08","symbolic execution of parser+loop+orca+responder + SMT, differential against independent strict decoders"),
  "C09":("orchestrator step with deadlines as first-class symbolic state and full 32-bit symbolic TTLs","§C09","symbolic execution + SMT over 32-bit TTL arithmetic"),
@@ -16,6 +17,7 @@ claimed={
  "C12":("LockedOrca over fault-injecting model handlers: fault position/kind symbolic choices, lock discipline observed through instrumented lockers; sequential part","§C12","symbolic execution + SMT with enumerated fault positions"),
  "C14":("pool discipline under a havoc-on-release model of sync.Pool (whole stack, wire level, chunked handler) with double-Put detection; one handler instance per client connection in the real ListenAndServe even when a client's first byte arrives late; two lock-free connections on different keys under every interleaving at backend calls","§C14","symbolic execution + SMT with an adversarial sync.Pool model; bounded schedule exploration"),
  "C15":("real ListenAndServe over a fake listener: a client stream cut at every byte offset then EOF; at quiescence sockets and backend connections closed, no goroutine or key lock left, a fresh client served","§C15","symbolic execution of accept loop + connection loop, cut offset as environment choice, quiescence assertions"),
+ "C13":("the real batching pool with its pooled connection cut before / after / inside a symbolic reply: one outcome per call, no partial multi-key answer without an error, own data only, pool serves again after reconnecting","§C13","symbolic execution of the pool's goroutines + SMT, cut position/kind as environment choices"),
  "C16":("chunk arithmetic kernels with symbolic lengths: sizes for all key lengths, FP chunk count per key length, slice indices, reader step induction, metadata of the real set path on an abstract-length value","§C16","symbolic execution + SMT incl. floating-point theory"),
  "C17":("real inmem.Handler vs reference map: one symbolic command from every 2-key map state; 2 goroutines x 1 command under every interleaving at lock granularity with a lock-discipline monitor on the shared map","§C17","symbolic execution + SMT; exhaustive schedule exploration (bounded) with lock-discipline monitor"),
  "C18":("bit-count routine (amd64 assembly translated, portable body) equals its specification on all 2^64 inputs; bucket index in range, upper bound and monotone for all n <= 2^63-1; histogram periods read back through getAll*: count, percentiles within [min,max] and among the observations, ring wrap-around; counters = sum of increments under every interleaving of 2 goroutines; observer vs period switch under every interleaving","§C18","SSA and assembly translated to SMT bit-vectors, Z3"),
@@ -27,6 +29,7 @@ notes={
  "C03":"2 connections x 1 command; 1 key / 1 stripe (quick), 2 keys / 2 stripes (thorough); more connections and longer programs outside the bound; app/memproxy.go wiring of the constructors is not executed (the constructors it calls are)",
  "C04":"key lengths 5 (quick), 1 and 250 (thorough); value lengths {0,1,2,p-1,p,p+1,2p,2p+1} (+3p thorough); long values symbolic at the chunk borders only; one known finding (surplus chunks of an overwritten longer value survive delete)",
  "C05":"1..3 chunks quick, 1..6 thorough; interleaved concurrent writers are not part of the check yet",
+ "C06":"pool of 1 connection, batch sizes 1-2, <= 2 callers, one legal schedule per path (caller interleavings not explored exhaustively); pool growth (monitor) and the dial are not executed",
  "C07":"lengths concrete per run (listed in evidence), contents symbolic; > 2 requests per pipeline and > 1 cut (quick) outside the bound",
  "C08":"model handlers stand for the backends; pipelines of 2; 2 keys; values <= 2 bytes; text flags <= 9 in quick; stats excluded",
  "C09":"orchestrator level with model handlers, plus the real chunked handler over the memcached model (deadline of every backend entry and the metadata Exptime field); batched handler TTL (gete) not yet part of this check",
@@ -35,6 +38,7 @@ notes={
  "C12":"sequential fault positions 0..1 (quick) / 0..3 (thorough); concurrent deadlock-freedom belongs to the schedule exploration of C03",
  "C14":"claimed in part: data-race freedom under the Go memory model over real schedules is NOT decided (no happens-before model); 2 connections; pools modelled adversarially (arbitrary contents after Put)",
  "C15":"4 representative request streams (3 text, 1 binary), std handlers; chunked handler and half-open connections outside the bound",
+ "C13":"claimed in part: channel hand-off protocol and caller-side retry under connection cuts at every reply position; real sockets, back-off timing, refused reconnects, pools of several connections are outside",
  "C16":"FP detour decided for key lengths {1,5,100,250} (quick) + {2,16,50,150,200,249} (thorough); reader step buffer length <= 8",
  "C17":"TTLs up to 30 days; 2 goroutines x 1 command; boundary second exptime == now left out",
  "C18":"histograms: unsampled, <= 2 (quick) / 3 (thorough) observations per period; 2 goroutines; float average and HTTP rendering not compared",
